@@ -215,6 +215,23 @@ fn hop_to_top(op: &HOp) -> TOp {
     }
 }
 
+/// Issue a primitive target operation on any target of colour `C`.
+fn issue<C: SimColor, T: DrawTarget<Color = C, Error = SimError>>(d: &mut T, top: &TOp) -> Result<(), SimError> {
+    match top {
+        TOp::DrawIter(px) => d.draw_iter(px.iter().map(|(x, y, c)| Pixel(Point::new(*x, *y), C::from_u32(*c)))),
+        TOp::FillContiguous { area, colours, repeat } => {
+            let a = crate::erased::rect_of(area);
+            let it = colours.iter().map(|c| C::from_u32(*c));
+            match repeat {
+                Some(r) => d.fill_contiguous(&a, it.chain(core::iter::repeat(C::from_u32(*r)))),
+                None => d.fill_contiguous(&a, it),
+            }
+        }
+        TOp::FillSolid { area, colour } => d.fill_solid(&crate::erased::rect_of(area), C::from_u32(*colour)),
+        TOp::Clear(c) => d.clear(C::from_u32(*c)),
+    }
+}
+
 fn step_json(s: &Step) -> J {
     match s {
         Step::Target(op) => hop_to_top(op).to_json(),
@@ -295,7 +312,26 @@ fn run_typed<C: SimColor + ColorMapping>(sc: &Scenario, opts: &Opts) -> RunOut {
                     TOp::FillSolid { .. } => out.probes |= probe("fill_solid_default"),
                     TOp::Clear(_) => out.probes |= probe("clear_default"),
                 }
-                writes = Some(top.writes(&R::xywh(0, 0, N as i64, N as i64)));
+                // the ordered pixel sequence a draw_iter-only 64x64 target receives for this
+                // operation (the same trait defaults run on both sides)
+                let mut dev = SimDisplay::<C>::with_memory(Rectangle::new(Point::zero(), Size::new(64, 64)), 0, crate::dev::Discipline::ZipPointsFirst, false);
+                dev.st.log_items = true;
+                let r = guarded(|| issue::<C, _>(&mut dev, &top));
+                match r {
+                    Ok(Ok(())) => {
+                        let mut ws = Vec::new();
+                        for c in &dev.st.calls {
+                            for (x, y, col) in &c.items {
+                                ws.push((*x as i64, *y as i64, *col));
+                            }
+                        }
+                        writes = Some(ws);
+                    }
+                    _ => {
+                        out.skipped = Some("operation_failed_on_reference_device");
+                        break;
+                    }
+                }
             }
             Step::DrawPixel { p, c } => {
                 out.probes |= probe("draw_pixel_direct");
@@ -368,19 +404,7 @@ fn run_typed<C: SimColor + ColorMapping>(sc: &Scenario, opts: &Opts) -> RunOut {
                     guarded(|| {
                         let mut t = InfallibleTarget(&mut display);
                         let mut d = DynTarget::new(&mut t);
-                        match &top {
-                            TOp::DrawIter(px) => d.draw_iter(px.iter().map(|(x, y, c)| Pixel(Point::new(*x, *y), C::from_u32(*c)))),
-                            TOp::FillContiguous { area, colours, repeat } => {
-                                let a = crate::erased::rect_of(area);
-                                let it = colours.iter().map(|c| C::from_u32(*c));
-                                match repeat {
-                                    Some(r) => d.fill_contiguous(&a, it.chain(core::iter::repeat(C::from_u32(*r)))),
-                                    None => d.fill_contiguous(&a, it),
-                                }
-                            }
-                            TOp::FillSolid { area, colour } => d.fill_solid(&crate::erased::rect_of(area), C::from_u32(*colour)),
-                            TOp::Clear(c) => d.clear(C::from_u32(*c)),
-                        }
+                        issue::<C, _>(&mut d, &top)
                     })
                 }
                 Step::DrawPixel { p, c } => guarded(|| {
